@@ -58,19 +58,19 @@ func (f Fault) String() string {
 
 // Event is one intercepted call on a sandbox path.
 type Event struct {
-	Seq   int    `json:"seq"`
-	Op    string `json:"op"`
-	Path  string `json:"path"`            // normalised, sandbox-relative
-	Path2 string `json:"path2,omitempty"` // rename/link target
-	Raw   string `json:"-"`               // actual absolute path
-	Raw2  string `json:"-"`
-	Flag  int    `json:"flag,omitempty"`
-	Perm  uint32 `json:"perm,omitempty"`
-	N     int    `json:"n,omitempty"`
-	Occ   int    `json:"occ"`
-	Err   string `json:"err,omitempty"`
-	Fault string `json:"fault,omitempty"`
-	FileID int   `json:"fid,omitempty"`
+	Seq    int    `json:"seq"`
+	Op     string `json:"op"`
+	Path   string `json:"path"`            // normalised, sandbox-relative
+	Path2  string `json:"path2,omitempty"` // rename/link target
+	Raw    string `json:"-"`               // actual absolute path
+	Raw2   string `json:"-"`
+	Flag   int    `json:"flag,omitempty"`
+	Perm   uint32 `json:"perm,omitempty"`
+	N      int    `json:"n,omitempty"`
+	Occ    int    `json:"occ"`
+	Err    string `json:"err,omitempty"`
+	Fault  string `json:"fault,omitempty"`
+	FileID int    `json:"fid,omitempty"`
 }
 
 func (e Event) Addr() Addr { return Addr{e.Op, e.Path, e.Occ} }
